@@ -389,11 +389,11 @@ use Kind::{Free as F, Hole as Hl, Pending as P, Region as R, Reserved as S};
 const _: (Kind, Kind, Kind, Kind, Kind) = (F, Hl, P, R, S);
 
 shapes! { body_len_last;
-    c02_l1_last_rp = [Region, Pending];
-    c02_l1_last_rs = [Region, Reserved];
-    c02_l1_last_rh = [Region, Hole];
+    c02_l1_lastq_rp = [Region, Pending];
+    c02_l1_lastq_rs = [Region, Reserved];
+    c02_l1_lastq_rh = [Region, Hole];
     c02_l1_last_hr = [Hole, Region];
-    c02_l1_last_rr = [Region, Region];
+    c02_l1_lastq_rr = [Region, Region];
     c02_l1_last_prs = [Pending, Region, Reserved];
     c02_l1_last_rhp = [Region, Hole, Pending];
     c02_l1_last_rpr = [Region, Pending, Region];
@@ -417,11 +417,11 @@ shapes! { body_remove;
     c02_l1_remove_prh = [Pending, Region, Hole];
 }
 shapes! { body_promote;
-    c02_l1_promote_hprh = [Hole, Pending, Region, Hole];
-    c02_l1_promote_hphr = [Hole, Pending, Hole, Region];
+    c02_l1_promoteq_hprh = [Hole, Pending, Region, Hole];
+    c02_l1_promoteq_hphr = [Hole, Pending, Hole, Region];
     c02_l1_promote_rphr = [Region, Pending, Hole, Region];
-    c02_l1_promote_rprp = [Region, Pending, Region, Pending];
-    c02_l1_promote_pprh = [Pending, Pending, Region, Hole];
+    c02_l1_promoteq_rprp = [Region, Pending, Region, Pending];
+    c02_l1_promoteq_pprh = [Pending, Pending, Region, Hole];
     c02_l1_promote_hpph = [Hole, Pending, Pending, Hole];
     c02_l1_promote_rhpr = [Region, Hole, Pending, Region];
     c02_l1_promote_hrph = [Hole, Region, Pending, Hole];
